@@ -1,12 +1,84 @@
 import IpaVerif.Model.Util
-/-! Line-protocol handlers for property C19 (model side). Import-free. -/
+import IpaVerif.Model.Reshard
+/-! Line-protocol handlers for property C19 (model side + spec-side oracle). Import-free. -/
 namespace IpaVerif.Driver.C19
-open IpaVerif.Util
+open IpaVerif.Util IpaVerif.Reshard
 
-/-- `some response` if the request belongs to this property, else `none`. -/
-def handle (_toks : List String) : Option String := none
+def parseLists (s : String) : Option (List (List Nat)) := (s.splitOn "/").mapM parseNatList
 
-/-- Property oracle on (request, implementation response): `some "holds"`, `some "fails <why>"`, or `none`. -/
-def oracle (_toks : List String) (_impl : String) : Option String := none
+def parseInts (s : String) : Option (List Int) :=
+  if s = "-" then some [] else (s.splitOn ",").mapM String.toInt?
+
+def parseErrs (s : String) : List (Option Nat) :=
+  if s = "-" then [] else (s.splitOn ",").map String.toNat?
+
+def insertAt {α : Type} (l : List α) (k : Nat) (x : α) : List α := l.take k ++ [x] ++ l.drop k
+
+structure Case where
+  n : Nat
+  dests : List (List Nat)
+  hints : List Int
+  errs : List (Option Nat)
+
+def parseCase (variant n dests hints errs : String) : Option Case := do
+  let n ← n.toNat?
+  let d ← parseLists dests
+  let h ← parseInts hints
+  let tr := variant == "try"
+  pure { n := n, dests := d, hints := if tr then h else [], errs := if tr then parseErrs errs else [] }
+
+def Case.values (c : Case) (s : Nat) : List Nat := (List.range (c.dests.getD s []).length).map (s * 1000 + ·)
+def Case.items (c : Case) (s : Nat) : List (Option Nat) :=
+  let vs := (c.values s).map some
+  match (c.errs[s]?).join with
+  | some p => insertAt vs (min p vs.length) none
+  | none => vs
+def Case.hint (c : Case) (s : Nat) : Nat :=
+  ((c.values s).length + (c.hints.getD s 0)).toNat
+def Case.pick (c : Case) (src i : Nat) (_x : Nat) : Nat := (c.dests.getD src []).getD i 0
+
+def showShard : Option (List Nat) → String
+  | none => "!"
+  | some l => showNatList l
+
+def handle (toks : List String) : Option String :=
+  match toks with
+  | ["c19.reshard", variant, n, dests, hints, errs] => some <| (do
+      let c ← parseCase variant n dests hints errs
+      if c.dests.length != c.n then none else
+      let out := (List.range c.n).map fun d => showShard (shardResult c.n c.pick c.items c.hint d)
+      pure (String.intercalate "/" out)).getD "bad-request"
+  | _ => none
+
+/-! Spec-side oracle, from the request only: if some input stream fails (error item, or more items
+than its size hint) nobody may return `Ok`; otherwise every record sits on the shard chosen for it,
+every input record appears exactly once over all shards, and each shard holds its records ordered
+by (source shard, position in the source's input) — the order that is the same on all helpers. -/
+def sortedStrict : List Nat → Bool
+  | a :: b :: rest => a < b && sortedStrict (b :: rest)
+  | _ => true
+
+def oracle (toks : List String) (impl : String) : Option String :=
+  match toks with
+  | ["c19.reshard", variant, n, dests, hints, errs] => some <| (do
+      let c ← parseCase variant n dests hints errs
+      if impl.startsWith "timeout" || impl.startsWith "panic" then pure s!"fails resharding did not complete: {impl}" else
+      let shards := impl.splitOn "/"
+      if shards.length != c.n then pure "fails wrong number of shard results" else
+      let failing := (List.range c.n).any fun s =>
+        (c.errs[s]?).join.isSome || (c.hint s < (c.values s).length)
+      if failing then
+        pure (if shards.all (· == "!") then "holds" else "fails an input stream failed but some shard returned Ok (or helpers disagree)")
+      else
+        if shards.any (fun x => x == "!" || x == "mixed") then pure "fails resharding of error-free input failed or helpers disagree" else
+        let lists ← shards.mapM parseNatList
+        let placed := (lists.zipIdx).all fun (l, d) => l.all fun v => c.pick (v / 1000) (v % 1000) v == d && v % 1000 < (c.values (v / 1000)).length
+        let total := (lists.map List.length).sum
+        let expected := ((List.range c.n).map fun s => (c.values s).length).sum
+        if !placed then pure "fails a record is on a shard it was not routed to"
+        else if !(lists.all sortedStrict) then pure "fails a shard holds a record twice or not in (source shard, input position) order"
+        else if total != expected then pure s!"fails {total} records after resharding, {expected} before"
+        else pure "holds").getD "unknown"
+  | _ => none
 
 end IpaVerif.Driver.C19
